@@ -65,7 +65,35 @@ fn subject_task(seed: u64, instrs: &[String]) -> TaskSpec {
             *x = IntSpec::V(1);
         }
     }
-    let prog = if r.chance(2, 3) {
+    let fam = r.below(4);
+    let prog = if fam == 3 {
+        // operand-fed: a few instructions (swarm focus) each preceded by small numeric
+        // operands, so that value-dependent paths (and anything remembered about the
+        // values) are exercised again and again with nearby arguments
+        let focus: Vec<String> = (0..(1 + r.below(3)))
+            .map(|_| loop {
+                let n = r.pick(instrs);
+                if ctx.allowed(n) {
+                    break n.clone();
+                }
+            })
+            .collect();
+        let mut v = vec![];
+        for _ in 0..(2 + r.below(6)) {
+            for _ in 0..4 {
+                v.push(ISpec::Int(match r.below(4) {
+                    0 => r.range(0, 4) as i32,
+                    1 => *r.pick(&[8, 9, 16, 25, 27, 36, 64]),
+                    _ => r.range(1, 14) as i32,
+                }));
+            }
+            for _ in 0..2 {
+                v.push(ISpec::F(((r.below(13) as f32) * 0.25).to_bits()));
+            }
+            v.push(ISpec::I(r.pick(&focus).clone()));
+        }
+        vec![ISpec::L(v)]
+    } else if fam < 2 {
         grammar_program(&mut r, &ctx)
     } else {
         // name-heavy: definitions and lookups travel through the bindings map
@@ -119,36 +147,47 @@ fn noise_task(seed: u64, instrs: &[String]) -> TaskSpec {
     }
 }
 
-fn perturb_item(x: &ISpec, r: &mut Rng, floats: bool) -> ISpec {
+/// Twin kinds: 0 = floats nudged by ~0.1 %, 1 = floats shifted by a fraction
+/// (same integer part, different value), 2 = integers +-1.
+fn perturb_item(x: &ISpec, r: &mut Rng, kind: u8) -> ISpec {
     match x {
-        ISpec::L(v) => ISpec::L(v.iter().map(|c| perturb_item(c, r, floats)).collect()),
-        ISpec::F(b) if floats => ISpec::F(perturb_f(*b, r)),
-        ISpec::Int(i) if !floats => ISpec::Int(i.wrapping_add(if r.chance(1, 2) { 1 } else { -1 })),
-        ISpec::FV(v) if floats => ISpec::FV(v.iter().map(|b| perturb_f(*b, r)).collect()),
-        ISpec::IV(v) if !floats => ISpec::IV(v.iter().map(|i| i.wrapping_add(1)).collect()),
+        ISpec::L(v) => ISpec::L(v.iter().map(|c| perturb_item(c, r, kind)).collect()),
+        ISpec::F(b) if kind < 2 => ISpec::F(perturb_f(*b, r, kind)),
+        ISpec::Int(i) if kind == 2 => ISpec::Int(i.wrapping_add(if r.chance(1, 2) { 1 } else { -1 })),
+        ISpec::FV(v) if kind < 2 => ISpec::FV(v.iter().map(|b| perturb_f(*b, r, kind)).collect()),
+        ISpec::IV(v) if kind == 2 => ISpec::IV(v.iter().map(|i| i.wrapping_add(1)).collect()),
         other => other.clone(),
     }
 }
 
-fn perturb_f(bits: u32, r: &mut Rng) -> u32 {
+fn perturb_f(bits: u32, r: &mut Rng, kind: u8) -> u32 {
     let f = f32::from_bits(bits);
     if !f.is_finite() {
         return bits;
     }
-    let g = f * (1.0 + 1e-3 * (1.0 + r.unit() as f32)) + 1e-4;
+    let g = if kind == 0 {
+        f * (1.0 + 1e-3 * (1.0 + r.unit() as f32)) + 1e-4
+    } else {
+        // stay inside the same unit interval: a key made by truncation or rounding
+        // to an integer cannot tell the two apart
+        let fl = f.floor();
+        let frac = f - fl;
+        fl + if frac < 0.45 { frac + 0.5 } else { frac * 0.5 }
+    };
     g.to_bits()
 }
 
 /// A "perturbed twin" of the subject: the same program and state with every float
 /// (or every integer) nudged. Run before and among the copies it leaves behind
 /// whatever a cache keyed too coarsely, a memo or a static would remember.
-fn twin_task(subject: &TaskSpec, seed: u64, floats: bool) -> TaskSpec {
+fn twin_task(subject: &TaskSpec, seed: u64, kind: u8) -> TaskSpec {
     let mut r = Rng::new(derive(seed, "twin"));
     let mut t = subject.clone();
+    let floats = kind;
     t.prog = t.prog.iter().map(|x| perturb_item(x, &mut r, floats)).collect();
-    if floats {
-        t.state.floats = t.state.floats.iter().map(|b| perturb_f(*b, &mut r)).collect();
-        t.state.floatvecs = t.state.floatvecs.iter().map(|v| v.iter().map(|b| perturb_f(*b, &mut r)).collect()).collect();
+    if kind < 2 {
+        t.state.floats = t.state.floats.iter().map(|b| perturb_f(*b, &mut r, kind)).collect();
+        t.state.floatvecs = t.state.floatvecs.iter().map(|v| v.iter().map(|b| perturb_f(*b, &mut r, kind)).collect()).collect();
     } else {
         for x in t.state.ints.iter_mut() {
             if let IntSpec::V(v) = x {
@@ -169,10 +208,10 @@ pub fn generate(seed: u64, instrs: &[String]) -> IsoSc {
     let nn = r.below(5) as usize;
     let mut noise: Vec<TaskSpec> = (0..nn).map(|k| noise_task(derive(seed, "noise-task") ^ k as u64, instrs)).collect();
     if r.chance(2, 3) {
-        noise.push(twin_task(&subject, seed, true));
+        noise.push(twin_task(&subject, seed, r.below(2) as u8));
     }
     if r.chance(1, 3) {
-        noise.push(twin_task(&subject, seed ^ 1, false));
+        noise.push(twin_task(&subject, seed ^ 1, 2));
     }
     IsoSc {
         seed,
@@ -496,8 +535,8 @@ pub fn profile_run(seed: u64, wrapped: &mut InstructionSet, names: &[String], tw
     e.e_events = 3000;
     if twins_first {
         // history: the perturbed twins of the subject run to completion first
-        for floats in [true, false] {
-            let tw = twin_task(&t, seed, floats);
+        for kind in [0u8, 1, 2] {
+            let tw = twin_task(&t, seed, kind);
             simenv::begin(&env, e, names, None);
             let mut st = tw.state.build(&tw.cfg);
             load_program(&mut st, wrapped, &tw.prog, false);
